@@ -620,14 +620,17 @@ def bounded_writer(seed, tier):
         S = lambda t: pyx12.segment.Segment(t.replace('*', et).replace(':', sub), st, et, sub)
         hist = []
         n_isa = rnd.randint(1, 2)
+        isa_ids = rnd.sample(range(1, 999999), n_isa)          # control numbers are unique within their scope (a repeat is an error)
         for ii in range(n_isa):
-            hist.append('ISA*00*          *00*          *ZZ*SENDER         *ZZ*RECEIVER       *040608*1333*U*00401*%09d*0*P*:' % rnd.randint(1, 999999))
+            hist.append('ISA*00*          *00*          *ZZ*SENDER         *ZZ*RECEIVER       *040608*1333*U*00401*%09d*0*P*:' % isa_ids[ii])
             n_gs = rnd.randint(1, 3)
+            gs_ids = rnd.sample(range(1, 99999), n_gs)
             for gi in range(n_gs):
-                hist.append('GS*HC*S*R*20040608*1333*%d*X*004010X098A1' % rnd.randint(1, 99999))
+                hist.append('GS*HC*S*R*20040608*1333*%d*X*004010X098A1' % gs_ids[gi])
                 n_st = rnd.randint(1, 3)
+                st_ids = rnd.sample(range(1, 9999), n_st)
                 for si in range(n_st):
-                    hist.append('ST*837*%04d' % rnd.randint(1, 9999))
+                    hist.append('ST*837*%04d' % st_ids[si])
                     for _ in range(rnd.randint(0, 4)):
                         hist.append(rnd.choice(['REF*EA*12', 'NM1*85*2*X:Y*****XX*1', 'DTP*472*D8*20040608', 'HL*1**20*1']))
                     # a trailer may be left out only where the next thing written is a trailer of an enclosing level or Close
